@@ -262,6 +262,7 @@ class Checker:
     def fail(self, what, cname, recipes, evalflag=False, extra=None):
         payload = {"class": cname, "recipes": recipes, "eval": evalflag}
         payload["replay"] = self.ri.replay_cmd(payload)
+        payload["oracle"] = what
         if extra:
             payload.update(extra)
         self.rep.violation(what, payload)
@@ -664,6 +665,14 @@ def run(tier, seed):
     rep = Report("C03", tier, seed)
     proof_ok = common.proof_stage(rep, "C03")
     import repr_impl as ri
+    record = rep.violation
+
+    def capped(what, payload, found_input=True):     # a systematic defect fails thousands of cases:
+        if found_input and len(rep.violations) >= 60:   # keep the first 60 replays, count the rest
+            rep.count("violations-not-recorded")
+            return
+        record(what, payload, found_input)
+    rep.violation = capped
     missing = ri.model_available()
     if missing:
         rep.violation(missing, {"broken": "runner/models.txt"}, found_input=False)
